@@ -203,9 +203,13 @@ func c02Trace(a vh.Args, o *vh.Oracle, r *vh.Result, rng *vh.Rand, n int) error 
 			}
 			blob = make([]byte, size)
 			shape = "zero-family"
-			if rng.Bool() {
+			switch rng.Intn(3) {
+			case 0:
 				copy(blob, rng.Bytes(rng.Intn(size/2+1)))
 				shape = "zero-family-head"
+			case 1:
+				c02Islands(rng, blob, int(mx))
+				shape = "zero-family-islands"
 			}
 		default:
 			blob, shape = c02Blob(rng, mn, mx, nw)
